@@ -505,6 +505,12 @@ class Controller:
                     return_parameters=result,
                 )
             )
+        elif handler == self.on_hci_command:
+            # Unsupported command without return parameters (or unknown opcode):
+            # the host still needs an answer
+            self._send_hci_command_status(
+                hci.HCI_ErrorCode.UNKNOWN_HCI_COMMAND_ERROR, command.op_code
+            )
         elif result is not None:
             logger.error("Async command handlers should return None, got %s", result)
 
